@@ -17,12 +17,20 @@ Correspondence (model = lean/IrVerif/Model/SymExpr.lean, driver commands sym.*):
     real build and the tree the model overloads build is compared, evaluation-equivalent under every binding, with the
     tree the proved Lean parser recovers from the REAL object's printed `.value`; `SymbolicDim.evaluate` (int vs residual
     dimension) and `Shape.evaluate / is_static / is_dynamic / free_symbols` are compared with `Dim.evaluate` / `Shape.*`;
-    plus an exhaustive matrix (GlueCase): 7 binary operators x all ordered pairs of 14 operand kinds, bool operands,
-    unary operators, the operators that have no overload, 14 shapes x 4 bindings, == / != / hash;
+    plus an exhaustive matrix (GlueCase): 7 binary operators x all ordered pairs of 16 operand kinds (True / False included since
+    wave 4: `Operand.bool`, C16_overload_dispatch_bool), the older independent bool oracle, unary operators, the operators that
+    have no overload, 14 shapes x 4 bindings, == / != / hash;
   * the tokenizer over Unicode (model = lean/IrVerif/Model/SymLexU.lean, command sym.lexu): ALL strings of length <= 3
     (thorough: 4) over a 24-character alphabet covering every character class the tokenizer distinguishes, through the
     real tokenizer / parser and the model's classification-parametric tokenizer (CPython's str predicates are supplied
-    per character by the harness: external tables).
+    per character by the harness: external tables).  Wave 4 (BmpSweepCase, command sym.lexu_sweep): that classification is CHECKED
+    on every run for all 63488 code points of the BMP - against the str predicates as `get_token` asks them and through the real
+    tokenizer on four probe texts per code point - plus an independent oracle: every non-ASCII blank / decimal digit reads like
+    its ASCII normalisation (`non-ascii:space:U+XXXX`, `non-ascii:digit:U+XXXX`);
+  * the model of SymPy's printer (lean/IrVerif/Model/SymExprSympy.lean, command sym.sympy_pp) on every built dimension and
+    (SympyTextCase, wave 4) on texts with sqrt / Rational powers / symbolic negative exponents, alone and through one real
+    overload: token-exact against the real str(), hypotheses SWf / SWfX / denNZ evaluated and published, parse = surf,
+    the evaluation half (C16_print_parse_sympy, C16_print_parse_sympy_symexp) re-computed per case, sden vs the real evaluate();
   * dimensions constructed from user SymPy expressions whose symbols carry OTHER assumptions than the parser's integer + positive
     (SympyDimCase: plain / integer-only / positive-only / real / nonnegative symbols, leaf-wise through the overloads, as one whole
     SymPy expression, mixed with text-built dimensions, two SymPy symbols of one name): `evaluate` (complete / partial) and
@@ -73,6 +81,9 @@ THEOREMS = [
     NS + "C16_parser_total",
     NS + "C16_tokenize_classes",
     NS + "C16_print_parse_sympy_partial",
+    NS + "C16_print_parse_sympy",
+    NS + "C16_overload_dispatch_bool",
+    NS + "C16_print_parse_sympy_symexp",
 ]
 ASSUMPTIONS = [
     "SymPy (construction, automatic simplification, str, subs, simplify, floor/Mod/Max arithmetic) is external: "
@@ -85,10 +96,14 @@ ASSUMPTIONS = [
     "the unchanged tree needs 1-4 s) is reported as a failing input (nontermination:*), not proved about",
     "the theorems about text are about ASCII text; non-ASCII text goes through the same tokenizer transcribed over a character "
     "classification supplied by CPython's str.isspace/isdigit/isalpha/isalnum/isidentifier and int() (external tables; "
-    "C16_tokenize_classes: with the ASCII classification it is the proved tokenizer); int() digit limit (4300 digits) and "
+    "C16_tokenize_classes: with the ASCII classification it is the proved tokenizer; since wave 4 the classification the model is run with is "
+    "compared on every run, for all 63488 code points of the BMP, with those predicates as get_token asks them and through the real tokenizer "
+    "on four probe texts per code point; the astral planes are sampled by the generators only); int() digit limit (4300 digits) and "
     "CPython's recursion limit on deeply nested text not modelled; sqrt(a, b) (SymPy reads b as evaluate=) not modelled",
     "operator overloads: the SymPy operators they call are read by their documented meaning (Expr // is floor(a/b), Expr % is "
-    "Mod, Rational(1, n) * a); a bool operand (an int for isinstance) is refused by SymPy itself and is oracle-only; "
+    "Mod, Rational(1, n) * a); a bool operand (an int for isinstance) goes down the int branches and is refused by SymPy's own operators "
+    "except Rational(1, other) - modelled since wave 4 (C16_overload_dispatch_bool), compared in the glue matrix, and still checked by the older "
+    "independent oracle (TypeError or the int's result); "
     "Python's operator dispatch (forward method of a left dimension, reflected method of a right one) is modelled, not verified",
     "SymbolicDim.simplify: sympy.simplify and the printability of its result are parameters of the model (C16_simplify_guard "
     "assumes simplify preserves evaluation: checked on every generated case, share published as simplify=done)",
@@ -1953,8 +1968,7 @@ class TreeCase:
         if sp.get("parsed") is None:
             P.disagree("model parser rejects the text of the model of SymPy's printer", case, None, self.sympy_pp["text"])
             return
-        if sp.get("vals_parsed") != sp.get("vals_den"):
-            P.disagree("SymPy surface form: the parsed text evaluates differently from the SymPy object's meaning (sden)", case, sp.get("vals_parsed"), sp.get("vals_den"))
+        _sympy_pp_values(P, sp, case)
         P.count("sympy_pp=token-exact")
         # what SymPy's construction made of the operator tree (external): its meaning vs the tree's, where defined
         for w, g, env in zip(lean_vals or [], sp.get("vals_den") or [], self.envs):
@@ -2405,6 +2419,7 @@ GLUE_KINDS = {
     "dimX": ["dim", "-N**2 % M"],
     "unk": ["unknown"], "bad": ["dim", "a b"],
     "float": ["other"], "none": ["other"], "frac": ["other"], "str": ["other"],
+    "true": ["bool", True], "false": ["bool", False],  # isinstance(True, int): modelled since wave 4 (C16_overload_dispatch_bool)
 }
 GLUE_DIMS = ("dimN", "dimE", "dimT", "dimX", "unk", "bad")
 
@@ -2755,6 +2770,216 @@ class AlphabetCase:
                     P.disagree("alphabet: values differ", {**case, "env": env}, w, val)
 
 
+
+# --------------------------------------------------------------------------- the character classification over the whole BMP
+
+BMP_CHUNK = 2048
+
+
+def _cls_code(c: str):
+    """`char_class` in the compact form of the driver command sym.lexu_sweep"""
+    k = char_class(c)
+    if k[1] == "digit":
+        return "d" if k[2] is None else k[2]
+    return {"space": "s", "alpha": "a", "numeric": "n", "other": "o"}[k[1]]
+
+
+class BmpSweepCase:
+    """The parameter of the classification-parametric tokenizer, checked instead of assumed: for EVERY code point of the
+    range (the run covers the whole Basic Multilingual Plane, surrogates excepted: not characters) the class the model
+    tokenizer is run with (`char_class`; the model's own `asciiClass` for ASCII) must reproduce the verdicts of CPython's
+    str.isspace / isdigit / isalpha / isalnum / isidentifier and int() exactly as `_ExpressionTokenizer.get_token` asks them
+    (skip; digit run; identifier start; identifier continuation; digit value; isidentifier of the one-character text), and
+    the model tokenizer under that class must return the real tokenizer's tokens on the probe texts c, ac, 1c, c1."""
+
+    def __init__(self, lo: int, hi: int, src: str = "bmp"):
+        self.lo, self.hi, self.src = lo, hi, src
+        self.case_obj = {"kind": "bmp", "lo": lo, "hi": hi}
+        self.reqs = []
+        self.rows = []
+
+    def prepare(self, P: Part):
+        cls = []
+        for n in range(self.lo, self.hi):
+            if 0xD800 <= n <= 0xDFFF:
+                cls.append("o")
+                self.rows.append(None)
+                continue
+            c = chr(n)
+            cls.append(_cls_code(c))
+            _mark("classify", c)
+            dv = None
+            if c.isdigit():
+                try:
+                    dv = int(c)
+                except ValueError:
+                    dv = None
+            preds = [c.isspace(), c.isdigit(), c.isalpha() or c == "_" or c.isidentifier(),
+                     c.isalnum() or c in "_." or ("_" + c).isidentifier(), dv, c.isidentifier() if n < 128 else None]
+            _unmark()
+            self.rows.append((n, preds, [real_tokens(t) for t in (c, "a" + c, "1" + c, c + "1")]))
+            # property oracle (independent of the model): a non-ASCII blank / decimal digit reads like its ASCII normalisation
+            if n >= 128 and (preds[0] or preds[1]):
+                text = "N" + c + "+" + c + "2" if preds[0] else "N+" + c
+                want = [5, 1] if preds[0] else ([3 + dv, 1] if dv is not None else None)
+                out = real_parse_outcome(text)
+                got = real_eval(out[1], {"N": 3}) if out[0] == "ok" else None
+                P.count("bmp_oracle=" + ("space" if preds[0] else "digit" if dv is not None else "digit-int-refuses"))
+                if (want is None and out[0] == "ok") or (want is not None and got != want):
+                    P.fail(f"non-ascii:{'space' if preds[0] else 'digit'}:U+{n:04X}",
+                           f"text {text!r} (U+{n:04X} is a {'blank' if preds[0] else 'digit'} for str.{'isspace' if preds[0] else 'isdigit'}) is {out[0]} with value {got} at N=3, "
+                           f"its ASCII normalisation gives {want if want is not None else 'ValueError (int() refuses the digit)'}", {"kind": "bmp", "lo": n, "hi": n + 1})
+        self.reqs.append({"m": "sym.lexu_sweep", "lo": self.lo, "cls": cls})
+
+    def finish(self, P: Part, outs):
+        got = outs[0].get("rows") or []
+        P.case(["bmp", self.lo, self.hi], nontrivial=True, src=self.src, bmp_chunk="swept")
+        if len(got) != len(self.rows):
+            P.disagree("bmp sweep: the driver answered for another number of code points", self.case_obj, len(got), len(self.rows))
+            return
+        bad = 0
+        for row, g in zip(self.rows, got):
+            if row is None:
+                continue
+            n, preds, toks = row
+            P.count("bmp_codepoints")
+            if g is None:
+                P.disagree("bmp sweep: the model has no character for a code point Python has", {"kind": "bmp", "lo": n, "hi": n + 1}, None, n)
+                continue
+            kind = "space" if preds[0] else "digit" if preds[1] else "start" if preds[2] else "continue" if preds[3] else "other"
+            P.count("bmp_class=" + kind + ("" if n >= 128 else ":ascii"))
+            if g[:6] != preds and bad < 5:
+                bad += 1
+                P.disagree("bmp sweep: the classification the model tokenizer runs with differs from CPython's str predicates "
+                           "[isspace, isdigit, starts an identifier, continues an identifier, int(), isidentifier]",
+                           {"kind": "bmp", "lo": n, "hi": n + 1}, g[:6], preds)
+            if g[6:] != toks and bad < 5:
+                bad += 1
+                P.disagree("bmp sweep: model tokenizer under the classification differs from the real tokenizer on c, ac, 1c, c1",
+                           {"kind": "bmp", "lo": n, "hi": n + 1}, g[6:], toks)
+
+
+# --------------------------------------------------------------------------- SymPy's printer on sqrt spellings / Rational powers
+
+SQRT_TEXTS = ["sqrt(N)", "1/sqrt(N)", "M/sqrt(N)", "sqrt(N + 1)", "N**(1/3)", "M/N**(2/3)", "sqrt(2)*N", "sqrt(N*M)", "N**(3/2)",
+              "M*N**(-3/2)", "sqrt(8)", "K/(M*sqrt(N))", "sqrt(N)/2", "2**sqrt(N)", "sqrt(N)**3", "sqrt(N/M)", "sqrt(N) + sqrt(M)",
+              "-sqrt(N)", "N - sqrt(M)", "floor(sqrt(N))", "max(sqrt(N), M)", "sqrt(N)**-1", "1/(2*sqrt(N))", "N**(-1/3)", "sqrt(4*N)",
+              "Mod(sqrt(N), 2)", "(N + 1)**(1/2)", "(N*M)**(-1/2)", "N**(5/2)/M", "sqrt(N)*sqrt(M)",
+              # symbolic negative exponents in a denominator (SWfX; C16_print_parse_sympy_symexp)
+              "M*K**(-N)", "M/K**N", "2**(-N)*M", "M*K**(-2*N)", "M*K**(-N/2)", "M*(N + 1)**(-K)", "M*(N - 1)**(-K)", "K**(-N)",
+              "M/(K**N*N)", "M*K**(-N)*N**(-M)", "M*K**(-N*M)", "M/(2*K**N)", "-M*K**(-N)", "M*K**(1 - N)", "M*K**(-N - 1)",
+              "M/K**(N*(M + 1))", "K**(-N)/3", "M*K**(-3*N/4)", "M*(N - M)**(-K)", "M*(N - 1)**(K*(1 - M))"]
+PLAIN_TEXTS = ["N", "M", "K", "N + 1", "N/2", "floor(N/2)", "N*M", "N - M", "2*N", "N**2", "1/N", "M/N**2", "max(N, M)", "Mod(N, 3)"]
+SQRT_ENVS = [{"N": 4, "M": 9, "K": 16}, {"N": 2, "M": 3, "K": 5}, {"N": 1, "M": 1, "K": 1}, {"N": 9, "M": 4, "K": 2}, {"N": 16, "M": 25, "K": 3}]
+
+
+def sqrt_items(rng, count):
+    items = [dict(a=t, op=None, b=None) for t in SQRT_TEXTS]
+    ops = ["add", "sub", "mul", "truediv", "radd", "rsub", "rmul", "rtruediv", "neg"]
+    while len(items) < count:
+        a = rng.choice(SQRT_TEXTS)
+        op = rng.choice(ops)
+        b = rng.choice([-3, -2, -1, 2, 3, 4]) if op.startswith("r") or rng.random() < 0.4 else rng.choice(SQRT_TEXTS + PLAIN_TEXTS)
+        items.append(dict(a=a, op=op, b=b))
+    return items
+
+
+def _sympy_pp_values(P, sp, case):
+    """the evaluation half of the SymPy-surface theorems on one case: for a well-formed tree (SWf, C16_print_parse_sympy) the parsed
+    text and the meaning agree under every binding; with symbolic negative exponents in a denominator (SWfX only,
+    C16_print_parse_sympy_symexp) under every binding that leaves no such denominator's base zero (denNZ, share published);
+    outside both hypotheses the comparison is differential"""
+    vp, vd, nz = sp.get("vals_parsed") or [], sp.get("vals_den") or [], sp.get("nz") or []
+    P.count("sympy_pp_wfx=" + str(bool(sp.get("wfx"))))
+    if sp.get("wf"):
+        if not all(nz):
+            P.disagree("C16_print_parse_sympy_symexp contradicted: SWf but denNZ false under some binding", case, nz, True)
+        if vp != vd:
+            P.disagree("C16_print_parse_sympy contradicted: a well-formed SymPy tree whose printed text evaluates differently from its meaning", case, vp, vd)
+        return
+    if sp.get("wfx"):
+        P.count("sympy_pp_symexp=" + ("every-binding-nonzero-base" if all(nz) else "some-binding-zero-base"))
+        for a, b, ok in zip(vp, vd, nz):
+            if ok and a != b:
+                P.disagree("C16_print_parse_sympy_symexp contradicted: SWfX and denNZ, yet the printed text evaluates differently from the meaning", case, vp, vd)
+                return
+            if not ok:
+                # not a theorem (differential): at a zero base the text may lose its value, it never gets ANOTHER value
+                P.count("sympy_pp_symexp_zero_base=" + ("same" if a == b else "text-has-no-value" if a is None else "DIFFERENT"))
+                if a is not None and a != b:
+                    P.disagree("SymPy surface form with a zero-based symbolic denominator: the printed text has a value other than the meaning's", case, vp, vd)
+                    return
+        return
+    if vp != vd:
+        P.disagree("SymPy surface form (outside SWfX): the parsed text evaluates differently from the SymPy object's meaning (sden)", case, vp, vd)
+
+
+class SympyTextCase:
+    """The model of SymPy's printer on the `sqrt` spellings and Rational exponents (wave 4: inside SWf): a dimension given
+    as text with sqrt / a Rational power, alone or combined through one real overload with an int / another dimension;
+    the SymPy object it holds goes through ppSympy (token-exact against the real str()), the hypothesis SWf, parse = surf,
+    vals_parsed = vals_den (C16_print_parse_sympy), and the meaning sden against the real evaluate() where it is rational."""
+
+    def __init__(self, a, op=None, b=None, src: str = "sqrt"):
+        self.a, self.op, self.b, self.src = a, op, b, src
+        self.case_obj = {"kind": "sympytext", "a": a, "op": op, "b": b}
+        self.reqs = []
+
+    def prepare(self, P: Part):
+        import onnx_ir as ir
+        from harness.c16_sympy import real_tokens_of_text, sexpr_of_sympy
+
+        self.row = None
+
+        def build():
+            x = ir.SymbolicDim(self.a)
+            y = self.b if isinstance(self.b, int) or self.b is None else ir.SymbolicDim(self.b)
+            op = self.op
+            if op is None:
+                return x
+            if op == "neg":
+                return -x
+            if op.startswith("r"):
+                return {"radd": lambda: y + x, "rsub": lambda: y - x, "rmul": lambda: y * x, "rtruediv": lambda: y / x}[op]()
+            return {"add": lambda: x + y, "sub": lambda: x - y, "mul": lambda: x * y, "truediv": lambda: x / y}[op]()
+
+        _mark("operator", self.a, [self.op, self.b])
+        st, d = attempt(build)
+        _unmark()
+        if st != "ok" or d.value is None:
+            P.count("sqrt_pp=construction-" + (d if st != "ok" else "unknown"))
+            return
+        st, sx = attempt(lambda: (sexpr_of_sympy(d._expr), str(d._expr)))
+        if st != "ok" or sx[0] is None or not sx[1].isascii():
+            P.count("sqrt_pp=outside-fragment")
+            return
+        vals = [real_eval(d, e) for e in SQRT_ENVS]
+        self.row = (sx[1], real_tokens_of_text(sx[1]), vals)
+        self.reqs.append({"m": "sym.sympy_pp", "e": sx[0], "envs": [envj(e) for e in SQRT_ENVS]})
+
+    def finish(self, P: Part, outs):
+        if self.row is None:
+            return
+        text, toks, vals = self.row
+        sp = outs[0]
+        case = {**self.case_obj, "text": text}
+        P.case(["sympytext", self.a, self.op, self.b], nontrivial=True, sample={"text": text}, src=self.src, sqrt_pp_wf=str(bool(sp.get("wf"))))
+        if sp.get("tokens") != toks:
+            P.disagree("sqrt / Rational power: the model of SymPy's printer (ppSympy) emits other tokens than the real str()", case, sp.get("s"), text)
+            return
+        if sp.get("wf") and sp.get("parsed") != sp.get("surf"):
+            P.disagree("model: parseTokens (ppSympy s) != surf s on a well-formed s", case, sp.get("parsed"), sp.get("surf"))
+        if sp.get("parsed") is None:
+            P.disagree("model parser rejects the text of the model of SymPy's printer", case, None, text)
+            return
+        _sympy_pp_values(P, sp, case)
+        P.count("sqrt_pp=token-exact")
+        for w, g, env in zip(sp.get("vals_den") or [], vals, SQRT_ENVS):
+            if w is not None and g != w:
+                P.disagree("sqrt / Rational power: the meaning of the SymPy object (sden) differs from the real evaluate()", {**case, "env": env}, w, g)
+                break
+
+
 IDENT_NAMES = ["\u2167", "e\u0301", "\u0928\u093e", "x\u00b7y", "N\u0663", "\u2115", "\u00e9t\u00e9", "\u5f20\u91cf", "_\u0301", "N\u2080",
                "batch", "a.b", "x1"]
 
@@ -2856,7 +3081,8 @@ _CASE_CLASSES = {}
 
 def _make_case(kind, it):
     cls = {"tree": TreeCase, "deriv": DerivCase, "unknown": UnknownDimCase, "nonascii": NonAsciiCase, "glue": GlueCase,
-           "alphabet": AlphabetCase, "identname": IdentNameCase, "sympybuilt": SympyDimCase}.get(kind, StringCase)
+           "alphabet": AlphabetCase, "identname": IdentNameCase, "sympybuilt": SympyDimCase, "bmp": BmpSweepCase,
+           "sympytext": SympyTextCase}.get(kind, StringCase)
     return cls(**it)
 
 
@@ -3320,6 +3546,15 @@ def run(ctx: Ctx) -> None:
         "(blank, tab, N, _, 1, 0, ., e, + - * / %, ( ) , #, and the non-ASCII classes: letter, decimal digit, no-break space, "
         "superscript digit, vulgar fraction, letter number, combining mark)"
     )
+    for lo in range(0, 0x10000, BMP_CHUNK):
+        other_items.append(("bmp", dict(lo=lo, hi=lo + BMP_CHUNK)))
+    ctx.exhaustive_scopes.append(
+        "character classification: ALL 63488 code points of the Basic Multilingual Plane (surrogates excepted) - the class the model tokenizer is run "
+        "with against str.isspace / isdigit / isalpha / isalnum / isidentifier / int() as get_token asks them, and the model tokenizer against the "
+        "real one on the probe texts c, ac, 1c, c1"
+    )
+    for it in [it for k, it in corpus_other if k == "sympytext"] + sqrt_items(rng, ctx.pick(160, 2500)):
+        other_items.append(("sympytext", it))
     deriv_items = []
     sdepths = [1, 1, 2, 2, 3] if ctx.quick else [1, 2, 2, 3, 4]
     max_tokens = ctx.pick(120, 400)  # SymPy's Max/Min/Mod construction is the cost of a long sentence
@@ -3391,6 +3626,8 @@ def _coverage_floors(ctx: Ctx, ntrees: int, nstrings: int, nsympy: int = 0) -> N
         ("dimensions built from SymPy objects evaluated", d.get("sympy_built_construct=ok", 0), int(0.95 * nsympy)),
         ("SymPy-built dimensions vs the by-name model", sum(v for k, v in d.items() if k.startswith("sympy_built_dimeval=")), 4 * int(0.9 * nsympy)),
         ("zero-valued subexpression trees", d.get("src=zero", 0), base(200, 600)),
+        ("BMP code points: classification and tokenizer swept", d.get("bmp_codepoints", 0), 63488),
+        ("sqrt / Rational-power texts through the model of SymPy's printer", d.get("sqrt_pp=token-exact", 0), base(100, 1500)),
     ]
     problems = [f"{name}: {got} < {need}" for name, got, need in floors if got < need]
     if skipped_infra > max(5, (ntrees + nstrings) // 200):
@@ -3432,6 +3669,10 @@ def _add_replay(obj, tree_items, str_items, other_items=None):
         other_items.append(("alphabet", dict(first=[case["s"]], length=1)))
     elif case.get("kind") == "ident-name":
         other_items.append(("identname", dict(name=case["name"])))
+    elif case.get("kind") == "bmp":
+        other_items.append(("bmp", dict(lo=int(case["lo"]), hi=int(case["hi"]))))
+    elif case.get("kind") == "sympytext":
+        other_items.append(("sympytext", dict(a=case["a"], op=case.get("op"), b=case.get("b"))))
     elif case.get("kind") == "tree" or "tree" in case:
         envs = case.get("envs") or [{s: 3 for s in tree_syms(_totuple(case["tree"]))}]
         splits = [tuple(x) for x in case.get("splits", [])]
